@@ -95,6 +95,9 @@ func main() {
 				}
 			}()
 			props[id].run(c)
+			if *tier == "thorough" && overlay == nil {
+				c.runSelfTests()
+			}
 		}()
 		if rc := c.Finish(); rc > exit {
 			exit = rc
